@@ -50,7 +50,7 @@ module.exports = {
     'comments are not compared (C10 covers comment handling)',
     '`T = T + E` for `T += E` is accepted as identity only for T in {identifier, identifier.name, this.name, identifier[literal|identifier]}; other targets are reported (known finding D5)'
   ],
-  plan (ctx) { return plan(ctx, { quickCorpus: 150 }) },
+  plan (ctx) { return plan(ctx, { quickCorpus: 320, exec: { quickRandom: 2500, quickFormsPerPlacement: 10, thoroughRandom: 30000 } }) },
   minEvaluations (ctx) { return ctx.tier === 'thorough' ? 3000 : 200 },
   async runShard (spec, ctx) {
     const js = jobs(spec, ctx)
